@@ -331,7 +331,7 @@ pub struct Witness {
 }
 
 fn pspec(mode: Mode, fin: Fin) -> PuppetSpec {
-    PuppetSpec { mode, late: false, fin, burst: 0, eager_end: false }
+    PuppetSpec { mode, late: false, fin, burst: 0, eager_end: false, per_pull: 1 }
 }
 
 fn base_spec(topo: Topo, pspecs: Vec<PuppetSpec>, lens: Vec<usize>, probe_specs: Vec<ProbeSpec>) -> CaseSpec {
